@@ -135,6 +135,9 @@ func (d *Decoder) decodeOBUs(pkt *rtp.Packet) ([][]byte, error) {
 		obus[0] = joinFragments(d.fragments, d.fragmentsSize)
 		d.resetFragments()
 	} else {
+		// the packet doesn't continue a fragmented OBU:
+		// discard fragments of a previous OBU whose continuation went missing.
+		d.resetFragments()
 		d.firstPacketReceived = true
 	}
 
